@@ -118,6 +118,32 @@ def retry_calls():
         ('DjangoCache', 'touch', lambda c: c.touch('k', 5), True),
         ('DjangoCache', 'pop', lambda c: c.pop('k'), BIG),
         ('DjangoCache', 'delete', lambda c: c.delete('k'), True),
+        # Index / Deque: their methods ask for retry themselves ("waits instead and then succeeds")
+        ('Index', 'setitem', lambda c: c.__setitem__('k', 'v'), None),
+        ('Index', 'delitem', lambda c: c.__delitem__('k'), None),
+        ('Index', 'pop', lambda c: c.pop('k'), BIG),
+        ('Index', 'popitem', lambda c: c.popitem(), ('n', 1)),
+        ('Index', 'popitem first', lambda c: c.popitem(last=False), ('k', BIG)),
+        ('Index', 'setdefault', lambda c: c.setdefault('new', 5), 5),
+        ('Index', 'update', lambda c: c.update({'z': 1}), None),
+        ('Index', 'push', lambda c: c.push('x'), 500000000000000),
+        ('Index', 'clear', lambda c: c.clear(), None),
+        ('Deque', 'append', lambda c: c.append(4), None),
+        ('Deque', 'appendleft', lambda c: c.appendleft(0), None),
+        ('Deque', 'pop', lambda c: c.pop(), 3),
+        ('Deque', 'popleft', lambda c: c.popleft(), 1),
+        ('Deque', 'extend', lambda c: c.extend([7]), None),
+        ('Deque', 'setitem', lambda c: c.__setitem__(0, 9), None),
+        ('Deque', 'delitem', lambda c: c.__delitem__(0), None),
+        ('Deque', 'remove', lambda c: c.remove(2), None),
+        ('Deque', 'rotate', lambda c: c.rotate(1), None),
+        ('Deque', 'reverse', lambda c: c.reverse(), None),
+        ('Deque', 'clear', lambda c: c.clear(), None),
+        # memoized functions ask for retry in both the look-up and the store: a repeated call whose look-up
+        # needs the write lock (statistics on) waits and is then served from the cache (result, runs)
+        ('Memo-Cache', 'repeated call', lambda f: f(1), (2, 1)),
+        ('Memo-FanoutCache', 'repeated call', lambda f: f(1), (2, 1)),
+        ('Memo-Cache', 'first call', lambda f: f(5), (6, 2)),
     ]
 
 
@@ -316,11 +342,37 @@ def run(tier, seed, rng, known, replay):
             elif cls_name == 'FanoutCache':
                 c = diskcache.FanoutCache(d, shards=2, timeout=0, disk_min_file_size=8)
                 targets = [os.path.join(d, '%03d' % i) for i in range(2)]
+            elif cls_name == 'Index':
+                c = diskcache.Index.fromcache(diskcache.Cache(d, timeout=0, disk_min_file_size=8, eviction_policy='none'))
+                targets = [d]
+            elif cls_name == 'Deque':
+                c = diskcache.Deque.fromcache(diskcache.Cache(d, timeout=0, disk_min_file_size=8, eviction_policy='none'), [1, 2, 3])
+                targets = [d]
+            elif cls_name.startswith('Memo-'):
+                if cls_name == 'Memo-Cache':
+                    base_c = diskcache.Cache(d, timeout=0, statistics=True)
+                    targets = [d]
+                else:
+                    base_c = diskcache.FanoutCache(d, shards=2, timeout=0, statistics=True)
+                    targets = [os.path.join(d, '%03d' % i) for i in range(2)]
+                runs = []
+
+                def plus_one(x, runs=runs):
+                    runs.append(x)
+                    return x + 1
+                memo = base_c.memoize(name='f')(plus_one)
+                memo(1)
+                c = lambda x, memo=memo, runs=runs: (memo(x), len(runs))
+                c.close = base_c.close
             else:
                 c = DjangoCache(d, {'SHARDS': 2, 'DATABASE_TIMEOUT': 0, 'OPTIONS': {'disk_min_file_size': 8}})
                 targets = [os.path.join(d, '%03d' % i) for i in range(2)]
-            c.set('k', BIG)
-            c.set('n', 1)
+            if cls_name == 'Index':
+                c['k'] = BIG
+                c['n'] = 1
+            elif cls_name in ('Cache', 'FanoutCache', 'DjangoCache'):
+                c.set('k', BIG)
+                c.set('n', 1)
             if cls_name == 'Cache':
                 c.push('q')
             env.rec.enabled = True
@@ -355,7 +407,7 @@ def run(tier, seed, rng, known, replay):
                                    'found_input': True, 'what': '%s.%s with retry while the lock is held elsewhere: %s' % (cls_name, name, why)})
             elif got == ('ok', want):
                 traces_ok += 1
-            c.close()
+            (c.close if hasattr(c, 'close') else c.cache.close)()
         finally:
             env.rec.on_action = None
             env.rec.enabled = True
